@@ -183,6 +183,7 @@ def install():
     import sys as _sys
     from crosshair.core import proxy_for_type
     from crosshair.statespace import context_statespace
+    from crosshair.util import IgnoreAttempt
     DBL_MAX = _sys.float_info.max
     _cnt = [0]
 
@@ -241,6 +242,71 @@ def install():
             return getattr(fn, "__globals__", {})
     _fu.fn_globals = fn_globals
 
+    # 8. math.floor / math.ceil / math.trunc of a symbolic number -> the proxy's own method
+    # (the C functions realise their argument)
+    import math as _math
+
+    def _mk(orig, meth):
+        def f(x):
+            with NoTracing():
+                isint = isinstance(x, bl.SymbolicInt)
+                isfloat = isinstance(x, bl.SymbolicFloat)
+            if isint:
+                return x
+            if isfloat:
+                return getattr(x, meth)()
+            with NoTracing():           # concrete argument: the real C function
+                return orig(x)
+        return f
+    for _name, _meth in (("floor", "__floor__"), ("ceil", "__ceil__"), ("trunc", "__trunc__")):
+        _f = getattr(_math, _name)
+        _core._PATCH_REGISTRATIONS[_f] = _mk(_f, _meth)
+
+    # 9. calendar.monthrange(year, month): the day count is exact (table + leap rule); the weekday of
+    # the 1st, which pycel never uses and which costs a date construction + mod 7 per call, is an
+    # unconstrained int in 0..6.
+    import calendar as _cal
+    _omr = _cal.monthrange
+
+    def _monthrange(year, month):
+        with NoTracing():
+            sym = isinstance(year, CrossHairValue) or isinstance(month, CrossHairValue)
+        if not sym:
+            with NoTracing():
+                return _omr(year, month)
+        if not 1 <= month <= 12:
+            raise _cal.IllegalMonthError(month)
+        ndays = 31
+        for i in range(1, 13):
+            if month == i:
+                ndays = _cal.mdays[i]
+        if month == 2 and (year % 4 == 0 and (year % 100 != 0 or year % 400 == 0)):
+            ndays = 29
+        with NoTracing():
+            name = "weekday1st" + context_statespace().uniq()
+        w = proxy_for_type(int, name)
+        if not 0 <= w <= 6:
+            raise IgnoreAttempt("weekday out of range")
+        return (w, ndays)
+    _core._PATCH_REGISTRATIONS[_cal.monthrange] = _monthrange
+
+    # 10. formula text -> python code -> code object, and the scan for needed addresses, depend only on the
+    # (concrete) formula text: run them untraced (no model involved, only the tracer is switched off).
+    from crosshair.tracers import is_tracing
+
+    def _untraced(fn):
+        def wrapper(*a, **kw):
+            if is_tracing():
+                with NoTracing():
+                    return fn(*a, **kw)
+            return fn(*a, **kw)
+        wrapper.__name__ = getattr(fn, "__name__", "untraced")
+        return wrapper
+    for _pname in ("needed_addresses", "python_code", "compiled_python", "rpn", "ast"):
+        _prop = ef.ExcelFormula.__dict__[_pname]
+        setattr(ef.ExcelFormula, _pname, property(_untraced(_prop.fget)))
+    ef.load_functions = _untraced(ef.load_functions)
+
     _FLOAT_DEFAULT = bl._PYTYPE_TO_WRAPPER_TYPE[float]
 
 
@@ -268,6 +334,9 @@ MODELS = [
     "int(symbolic float) routed to the proxy's __int__ (z3 ToInt)",
     "float as exact real, UNKNOWN cap of real-based floats lifted (obligations tagged float=real)",
     "operator.pow(symbolic base, concrete exponent not a non-negative int): complex for negative base/fractional exponent, ZeroDivisionError for 0**negative, OverflowError beyond DBL_MAX**(1/b), otherwise an unconstrained float",
+    "math.floor/ceil/trunc(symbolic int) = identity, (symbolic float) = the proxy's __floor__/__ceil__/__trunc__ (z3 ToInt)",
+    "calendar.monthrange(symbolic): exact day count, first-weekday component an unconstrained int in 0..6",
+    "ExcelFormula.rpn/ast/python_code/compiled_python/needed_addresses and load_functions (functions of the concrete formula text only) run with the tracer switched off",
     "fix: crosshair.fnutil.fn_globals tolerates closures with unassigned free variables",
     "fix of SymbolicBoundedIntTuple._create_up_to (negative slice appended phantom characters)",
     "str.lower()/upper() of a symbolic code point < 128 as the 26-letter ASCII shift (others: CrossHair's Unicode model)",
